@@ -234,8 +234,17 @@ async def gen_family(r):
         # (the expectation forms that only the repaired comparator accepts are C19's business, not C18's)
         triples = [t for t in c19.build_assertions(r, kind, out, eff, index_free=True)
                    if not t[0].endswith("annotations-map")]
+        if kind == "ResourceFunction" and eff["e"] != "wrote":
+            # what an EARLIER case sent is not what this case did
+            earlier = [e["eff"]["m"] for j, e in sorted(run["log"].items())
+                       if j < len(cases) and e["eff"]["e"] == "wrote"]
+            if earlier:
+                triples.append(("resource:sent-by-earlier-case",
+                                {"expectResource": c19.expectation_of_written(r.choice(earlier))}, False))
         truthful = r.random() < (0.9 if is_core(c) else 0.6)
         pool = [t for t in triples if t[2] == truthful] or triples
+        if not truthful and pool and any(t[0] == "resource:sent-by-earlier-case" for t in pool) and r.random() < 0.5:
+            pool = [t for t in pool if t[0] == "resource:sent-by-earlier-case"]
         label, frag, must = r.choice(pool)
         c.update(copy.deepcopy(frag))
         cases.append(c)
